@@ -19,6 +19,9 @@ fn main() {
     mc_core::subject::install_quiet_panic_hook();
     let cli = parse_cli();
     let t0 = std::time::Instant::now();
+    if cli.cmd != "replay" && mc_core::isolate::worker_spec().is_none() {
+        mc_core::abortguard::install(cli.out.clone(), &cli.cmd, "btor2", cli.tier.name());
+    }
     let tier = cli.tier;
     if cli.cmd == "replay" {
         let text = std::fs::read_to_string(cli.file.as_ref().expect("replay needs a file")).unwrap();
@@ -104,7 +107,9 @@ fn main() {
                 let subs = subjects::subjects();
                 let inp = gen::inputs(tier);
                 sample_docs(&mut report, kind, &inp.sequences);
-                groups.push((kind.to_string(), subs, inp.all()));
+                let mut docs = inp.all();
+                docs.extend(c06::c05_docs());
+                groups.push((kind.to_string(), subs, generic::dedup_docs(docs)));
             }
             generic::c05_isolated(&groups, tier.pick(40.0, 1500.0), &mut report);
             report.traces = report.evaluations;
